@@ -278,7 +278,7 @@ def gen_cases(ctx, pool):
         ['M', [], [['A', [], [['S', [1], [leaf('x')], 's1'], ['S', [1], [leaf('x')], 's1']]]]],
     ]
     ctx.count('corpus', len(cases))
-    nrand = 300 if quick else 6000
+    nrand = 260 if quick else 6000
     for k in range(nrand):
         r = rng.random()
         flaw = None
@@ -802,7 +802,7 @@ def gen_child_cases(ctx, pool):
     cases = [{'tree': tree, 'cfg': dict(DEFAULT_CFG)} for tree in trees]
     cases.append({'tree': trees[1], 'cfg': dict(DEFAULT_CFG, n_workers=2, path='nested-missing')})
     cases.append({'tree': trees[0], 'cfg': dict(DEFAULT_CFG, history='two-dirs', path='Path')})
-    nrand = 16 if ctx.tier == 'quick' else 300
+    nrand = 12 if ctx.tier == "quick" else 300
     while len(cases) < len(trees) + 2 + nrand:
         tree = gen_tree(rng, rng.choice([2, 3, 4]), rng.choice([None, None, None, 'bad', 'dup', 'variant-sibling',
                                                                 'shared-subreport']), pool)
